@@ -216,14 +216,18 @@ Fixpoint lex_str (s : string) : option (string * string) :=
             | Some cp =>
               if is_hi_sur cp then
                 match r2 with
-                | String b (String u (String g1 (String g2 (String g3 (String g4 r3))))) =>
+                | String b (String u r2') =>
                   if (code b =? 92)%N && (code u =? 117)%N then
-                    match hex4 g1 g2 g3 g4 with
-                    | Some lo =>
-                      if is_lo_sur lo
-                      then push (utf8_enc (65536 + (cp - 55296) * 1024 + (lo - 56320))) (lex_str r3)
-                      else push (utf8_enc 65533) (lex_str r2)
-                    | None => None
+                    match r2' with
+                    | String g1 (String g2 (String g3 (String g4 r3))) =>
+                      match hex4 g1 g2 g3 g4 with
+                      | Some lo =>
+                        if is_lo_sur lo
+                        then push (utf8_enc (65536 + (cp - 55296) * 1024 + (lo - 56320))) (lex_str r3)
+                        else push (utf8_enc 65533) (lex_str r2)
+                      | None => None
+                      end
+                    | _ => None        (* a truncated \u escape: no reading of r2 succeeds either *)
                     end
                   else push (utf8_enc 65533) (lex_str r2)
                 | _ => push (utf8_enc 65533) (lex_str r2)
